@@ -52,6 +52,8 @@ type FakeConsul struct {
 	T      *Trace
 
 	FailStatus string // status used for a failing check (default "critical")
+	// BadTagsFn, when set, supplies the tags of an instance in state "bad"
+	BadTagsFn func(id string) []string
 
 	parkedH   map[uint64]int // index -> number of health queries parked at it
 	parkedK   map[uint64]int
@@ -252,6 +254,9 @@ type fCheck struct {
 
 func (f *FakeConsul) tagsLocked(i *FInst) []string {
 	if f.inst[i.ID] == "bad" {
+		if f.BadTagsFn != nil {
+			return f.BadTagsFn(i.ID)
+		}
 		return i.BadTags
 	}
 	return i.GoodTags
